@@ -31,9 +31,9 @@ inductive MType | readRequest | readResponse | writeRequest | writeResponse | me
 def MType.code : MType → Nat
   | .readRequest => 0 | .readResponse => 1 | .writeRequest => 2 | .writeResponse => 3 | .metaMessage => 15
 
-def MType.ofCode : Nat → Option MType
-  | 0 => some .readRequest | 1 => some .readResponse | 2 => some .writeRequest
-  | 3 => some .writeResponse | 15 => some .metaMessage | _ => none
+def MType.ofCode (n : Nat) : Option MType :=
+  if n = 0 then some .readRequest else if n = 1 then some .readResponse else if n = 2 then some .writeRequest
+  else if n = 3 then some .writeResponse else if n = 15 then some .metaMessage else none
 
 def MType.isRequest : MType → Bool
   | .readRequest | .writeRequest => true
@@ -108,9 +108,8 @@ def sizeValid (f : Frame) : Bool :=
     | .readRequest | .metaMessage => atoms = 0
     | _ => f.size = atoms
 
-def classify (raw : List Octet) : Verdict :=
-  if raw.length < 12 then .badHeaderEncoding else
-  let w0 := unbe (raw.take 2)
+/-- reading of a string of at least twelve octets whose first header word is `w0` -/
+def classifyWord (raw : List Octet) (w0 : Nat) : Verdict :=
   if w0 % 16 ≠ 0 then .badHeaderEncoding else
   match MType.ofCode (w0 / 16 % 16) with
   | none => .badHeaderEncoding
@@ -130,6 +129,9 @@ def classify (raw : List Octet) : Verdict :=
     if !sizeValid f then .badPayloadSize f
     else if pl ∧ !f.payload.isEmpty ∧ unbe plcWord ≠ crc16 f.payload then .badPayloadChecksum f
     else .accept f
+
+def classify (raw : List Octet) : Verdict :=
+  if raw.length < 12 then .badHeaderEncoding else classifyWord raw (unbe (raw.take 2))
 
 /-! ### the answer a request is owed (sections 2.1, 3.1) -/
 
